@@ -415,3 +415,181 @@ theorem hostCheckSpec_perm (f : HostFile) (hosts hosts' tags tags' : List (Strin
     exact ⟨pt, tp.mem_iff.mp hpt, e⟩
 
 end BfeVerif.C14
+
+/-! ### order independence of the other check functions (vip, route, cluster_conf, gslb, cluster_table, name_conf) -/
+namespace BfeVerif.C14
+open BfeVerif.C13
+
+theorem forAllM_isOk_perm {α : Type} {f : α → Res Unit} {l l' : List α} (hp : l.Perm l') :
+    (forAllM f l).isOk = (forAllM f l').isOk := by
+  have key : ∀ m : List α, (forAllM f m).isOk = true ↔ ∀ x ∈ m, f x = .ok () := by
+    intro m
+    rw [← forAllM_ok_iff m]
+    cases h : forAllM f m <;> simp [Res.isOk]
+  have : (forAllM f l).isOk = true ↔ (forAllM f l').isOk = true := by
+    rw [key, key]
+    exact ⟨fun h x hx => h x (hp.mem_iff.mpr hx), fun h x hx => h x (hp.mem_iff.mp hx)⟩
+  cases h1 : (forAllM f l).isOk <;> cases h2 : (forAllM f l').isOk <;> simp_all
+
+theorem forAllM_eq_perm {α : Type} {f : α → Res Unit} (hf : ∀ x, f x ≠ .crash) {l l' : List α} (hp : l.Perm l') :
+    forAllM f l = forAllM f l' := by
+  have h := forAllM_isOk_perm (f := f) hp
+  have c1 := forAllM_ne_crash (f := f) l fun x _ => hf x
+  have c2 := forAllM_ne_crash (f := f) l' fun x _ => hf x
+  cases h1 : forAllM f l <;> cases h2 : forAllM f l' <;> simp_all [Res.isOk]
+
+/-- vip: every address of every product parses -/
+theorem vipAddAll_ok_iff (parseIP : ParseIP) (p : String) : ∀ (l : List String) (m : List (String × String)),
+    (vipAddAll parseIP p l m).isOk = l.all fun v => (parseIP v).isSome
+  | [], m => by simp [vipAddAll, Res.isOk]
+  | v :: vs, m => by
+    unfold vipAddAll
+    rw [List.all_cons]
+    cases hp : parseIP v with
+    | none => simp only [Option.isSome_none, Bool.false_and, Res.isOk]
+    | some c =>
+      simp only [Option.isSome_some, Bool.true_and]
+      exact vipAddAll_ok_iff parseIP p vs _
+
+theorem vipBuild_ok_iff (parseIP : ParseIP) : ∀ (l : List (String × List String)) (m : List (String × String)),
+    (vipBuild parseIP l m).isOk = l.all fun kv => kv.2.all fun v => (parseIP v).isSome
+  | [], m => by simp [vipBuild, Res.isOk]
+  | (p, vs) :: rest, m => by
+    unfold vipBuild
+    rw [List.all_cons]
+    have h := vipAddAll_ok_iff parseIP p vs m
+    cases ha : vipAddAll parseIP p vs m with
+    | ok m' =>
+      rw [ha] at h
+      simp only [Res.isOk] at h
+      rw [← h, Bool.true_and]
+      simp only [Res.bind]
+      exact vipBuild_ok_iff parseIP rest m'
+    | err =>
+      rw [ha] at h
+      simp only [Res.isOk] at h
+      rw [← h, Bool.false_and]
+      rfl
+    | crash => exact absurd ha (vipAddAll_ne_crash parseIP p vs m)
+
+theorem all_perm {α : Type} {p : α → Bool} {l l' : List α} (hp : l.Perm l') : l.all p = l'.all p := by
+  have : l.all p = true ↔ l'.all p = true := by
+    simp only [List.all_eq_true]
+    exact ⟨fun h x hx => h x (hp.mem_iff.mpr hx), fun h x hx => h x (hp.mem_iff.mp hx)⟩
+  cases h1 : l.all p <;> cases h2 : l'.all p <;> simp_all
+
+/-- cluster_conf: the per-cluster checks are independent of each other -/
+theorem clusterToConfCheck_isOk : ∀ l : List (String × ClusterConf),
+    (clusterToConfCheck l).isOk = l.all fun kv => (clusterConfCheck kv.2).isOk
+  | [] => by simp [clusterToConfCheck, Res.isOk]
+  | (n, c) :: rest => by
+    unfold clusterToConfCheck
+    have ih := clusterToConfCheck_isOk rest
+    cases hc : clusterConfCheck c with
+    | ok c' =>
+      cases hr : clusterToConfCheck rest with
+      | ok r => rw [hr] at ih; simp [Res.bind, Res.isOk] at ih ⊢; simpa [hc, Res.isOk] using ih
+      | err => rw [hr] at ih; simp [Res.bind, Res.isOk] at ih ⊢; simpa [hc, Res.isOk] using ih
+      | crash => exact absurd hr (clusterToConfCheck_ne_crash rest)
+    | err => simp [Res.bind, Res.isOk, hc]
+    | crash => exact absurd hc (clusterConfCheck_ne_crash c)
+
+/-- gslb: the wrapped sum of the positive weights does not depend on the order -/
+def gslbSumPos : List (String × Int) → Int
+  | [] => 0
+  | (_, w) :: rest => (if w > 0 then w else 0) + gslbSumPos rest
+
+theorem gslbSumPos_perm {l l' : List (String × Int)} (h : l.Perm l') : gslbSumPos l = gslbSumPos l' := by
+  induction h with
+  | nil => rfl
+  | cons x _ ih => obtain ⟨a, w⟩ := x; simp [gslbSumPos, ih]
+  | swap x y l => obtain ⟨a, w⟩ := x; obtain ⟨b, v⟩ := y; simp only [gslbSumPos]; omega
+  | trans _ _ ih1 ih2 => exact ih1.trans ih2
+
+theorem wrap64_add (a b : Int) : wrap64 (wrap64 a + b) = wrap64 (a + b) := by
+  unfold wrap64; omega
+
+theorem wrap64_idem (a : Int) : wrap64 (wrap64 a) = wrap64 a := by
+  unfold wrap64; omega
+
+theorem gslbTotal_eq : ∀ (l : List (String × Int)) (t : Int), wrap64 t = t →
+    gslbTotal l t = wrap64 (t + gslbSumPos l)
+  | [], t, ht => by simp [gslbTotal, gslbSumPos, ht]
+  | (a, w) :: rest, t, ht => by
+    unfold gslbTotal
+    by_cases hw : w > 0
+    · simp only [hw, if_true, gslbSumPos]
+      rw [gslbTotal_eq rest _ (wrap64_idem _), wrap64_add]
+      congr 1; omega
+    · simp only [hw, if_false, gslbSumPos]
+      rw [gslbTotal_eq rest t ht]
+      congr 1; omega
+
+theorem gslbTotal_perm {l l' : List (String × Int)} (h : l.Perm l') : gslbTotal l 0 = gslbTotal l' 0 := by
+  rw [gslbTotal_eq l 0 (by decide), gslbTotal_eq l' 0 (by decide), gslbSumPos_perm h]
+
+end BfeVerif.C14
+
+namespace BfeVerif.C14
+open BfeVerif.C13
+
+theorem convertBasic_isOk : ∀ (l : List (String × List BasicRuleFile)) (acc : List (String × (RuleTree × List BasicRule))),
+    (convertBasic l acc).isOk = l.all fun pr => (convertBasicRules pr.2 [] []).isOk
+  | [], acc => by simp [convertBasic, Res.isOk]
+  | (p, rules) :: rest, acc => by
+    unfold convertBasic
+    rw [List.all_cons]
+    cases ha : convertBasicRules rules [] [] with
+    | ok tr => simp only [Res.bind, Res.isOk, Bool.true_and]; exact convertBasic_isOk rest _
+    | err => simp only [Res.bind, Res.isOk, Bool.false_and]
+    | crash => exact absurd ha (convertBasicRules_ne_crash rules [] [])
+
+theorem convertAdv_isOk (condOk : CondOk) : ∀ (l : List (String × List AdvRuleFile)) (acc : List (String × List (String × String))),
+    (convertAdv condOk l acc).isOk = l.all fun pr => (convertAdvRules condOk pr.2 []).isOk
+  | [], acc => by simp [convertAdv, Res.isOk]
+  | (p, rules) :: rest, acc => by
+    unfold convertAdv
+    rw [List.all_cons]
+    cases ha : convertAdvRules condOk rules [] with
+    | ok rs => simp only [Res.bind, Res.isOk, Bool.true_and]; exact convertAdv_isOk condOk rest _
+    | err => simp only [Res.bind, Res.isOk, Bool.false_and]
+    | crash => exact absurd ha (convertAdvRules_ne_crash condOk rules [])
+
+/-- acceptance of a route file as a boolean formula over its two maps -/
+theorem routeLoad_isOk (condOk : CondOk) (f : RouteFile) :
+    (routeLoad condOk f).isOk =
+      (f.version.isSome && !(f.basic.isNone && f.adv.isNone) &&
+       (f.basic.getD []).all (fun pr => (convertBasicRules pr.2 [] []).isOk) &&
+       (f.adv.getD []).all (fun pr => (convertAdvRules condOk pr.2 []).isOk)) := by
+  unfold routeLoad
+  cases hv : f.version with
+  | none => simp [Res.isOk]
+  | some v =>
+    cases hb : f.basic with
+    | none =>
+      cases ha : f.adv with
+      | none => simp [Res.isOk]
+      | some a =>
+        have h := convertAdv_isOk condOk a []
+        cases hc : convertAdv condOk a [] with
+        | ok r => rw [hc] at h; simp only [Res.isOk] at h; simp [deref, Res.bind, Res.isOk, hc, ← h]
+        | err => rw [hc] at h; simp only [Res.isOk] at h; simp [deref, Res.bind, Res.isOk, hc, ← h]
+        | crash => exact absurd hc (convertAdv_ne_crash condOk a [])
+    | some b =>
+      have hB := convertBasic_isOk b []
+      cases hcb : convertBasic b [] with
+      | crash => exact absurd hcb (convertBasic_ne_crash b [])
+      | err => rw [hcb] at hB; simp only [Res.isOk] at hB; simp [deref, Res.bind, Res.isOk, hcb, ← hB]
+      | ok bm =>
+        rw [hcb] at hB
+        simp only [Res.isOk] at hB
+        cases ha : f.adv with
+        | none => simp [deref, Res.bind, Res.isOk, hcb, ← hB]
+        | some a =>
+          have h := convertAdv_isOk condOk a []
+          cases hc : convertAdv condOk a [] with
+          | ok r => rw [hc] at h; simp only [Res.isOk] at h; simp [deref, Res.bind, Res.isOk, hcb, hc, ← hB, ← h]
+          | err => rw [hc] at h; simp only [Res.isOk] at h; simp [deref, Res.bind, Res.isOk, hcb, hc, ← hB, ← h]
+          | crash => exact absurd hc (convertAdv_ne_crash condOk a [])
+
+end BfeVerif.C14
